@@ -1,7 +1,7 @@
 (* Proofs/BlocksInst.v -- the concrete language [IL] satisfies the three laws the simulation
    needs; concrete runs: a non-vacuity witness and the counterexamples showing that each guard
    of [Strict] is necessary (AstVm's structured interpreter and the jump form really differ). *)
-From TV Require Import Base.I32 Model.Blocks Model.BlocksInst Gen.DesugarRules Proofs.BlocksStatic Proofs.BlocksSim.
+From TV Require Import Base.I32 Model.Blocks Model.BlocksInst Gen.DesugarRules Proofs.BlocksStatic Proofs.BlocksSim Proofs.BlocksMono.
 Open Scope Z_scope.
 
 Lemma w32_eq z : w32 z = wrap32 z.
@@ -164,4 +164,48 @@ Lemma rules_as_modelled :
 Proof.
   split. reflexivity. split. intros [z|]; cbn; rewrite ?orb_false_r; reflexivity.
   split; reflexivity.
+Qed.
+
+(* [IL] never reports a diagnostic: its functions return Ok or Panic *)
+Definition no_err {A} (m : outcome A) : Prop := forall t, m <> Err t.
+Lemma no_err_bind {A B} (m : outcome A) (f : A -> outcome B) :
+  no_err m -> (forall a, no_err (f a)) -> no_err (obind m f).
+Proof. intros H1 H2 t. destruct m; cbn; try discriminate. apply H2. intros E. apply (H1 t). inversion E; reflexivity. Qed.
+Lemma ird_no_err v r : no_err (ird v r).
+Proof. intros t. unfold ird. destruct (rlookup v r); discriminate. Qed.
+Lemma ieval_no_err e : forall r, no_err (ieval e r).
+Proof.
+  induction e as [z|v|a IHa op b IHb|v]; intros r; cbn [ieval].
+  - intros t; discriminate.
+  - apply no_err_bind. apply ird_no_err. intros a t; discriminate.
+  - apply no_err_bind. apply IHa. intros ar. apply no_err_bind. apply IHb. intros br t; discriminate.
+  - apply no_err_bind. apply ird_no_err. intros a t; discriminate.
+Qed.
+Lemma ieval_list_no_err es : forall r, no_err (ieval_list es r).
+Proof.
+  induction es as [|e es IH]; intros r; cbn [ieval_list]. intros t; discriminate.
+  apply no_err_bind. apply ieval_no_err. intros er. apply no_err_bind. apply IH. intros tr t; discriminate.
+Qed.
+Lemma idecl_no_err l : forall r, no_err (idecl l r).
+Proof.
+  induction l as [|[v [e|]] l IH]; intros r; cbn [idecl]. intros t; discriminate.
+  apply no_err_bind. apply ieval_no_err. intros er. apply IH. apply IH.
+Qed.
+Lemma iexec_no_err x rt r : no_err (iexec x rt r).
+Proof.
+  destruct x; cbn [iexec].
+  - apply no_err_bind. apply ieval_list_no_err. intros a t; discriminate.
+  - apply no_err_bind. apply ieval_no_err. intros a t; discriminate.
+  - apply no_err_bind. apply ird_no_err. intros a. apply no_err_bind. apply ieval_no_err. intros b t; discriminate.
+  - apply no_err_bind. apply idecl_no_err. intros a t; discriminate.
+Qed.
+
+Theorem monotone_no_time_reset_IL fl p st fuel :
+  wf_prog IL p = true -> mono_block IL p 0 = true -> s_time st <= 0 ->
+  run_struct IL fuel (Strict fl) p st <> Err E_TIMERESET.
+Proof.
+  apply monotone_no_time_reset.
+  - intros e r. apply ieval_no_err.
+  - intros x rt r. apply iexec_no_err.
+  - intros v r. apply ird_no_err.
 Qed.
